@@ -56,6 +56,8 @@ try:
     extra = {}
     mg = re.search(r"GODEBUG=([\w.=,]+)", meta.get("demo_run", ""))
     if mg: extra["GODEBUG"] = mg.group(1)
+    ma = re.search(r"GOARCH=(\w+)", meta.get("demo_run", "") + hdr)
+    if ma: extra["GOARCH"] = ma.group(1)
     rc0, out0 = sh(democmd, cwd=wt, extra=extra)
     res["demo_clean_rc"] = rc0
     rc, out = sh("git apply %s" % os.path.join(d, "patch.diff"), cwd=wt)
